@@ -944,6 +944,19 @@ theorem bool_nodeVal (nodes : Array CNode) (env : Env) (m : Nat) (h : isBoolNode
       rw [nodeVal_eq nodes env m hn ty (by rw [hnd']; rfl), hnd']; simp only [evalNode, get_single, if_pos rfl]; simpa using bb _
     | lnot a ty =>
       rw [nodeVal_eq nodes env m hn ty (by rw [hnd']; rfl), hnd']; simp only [evalNode, get_single, if_pos rfl]; simpa using bb _
+    | gate op a b w ty =>
+      cases w with
+      | node q => simp [hnd] at h
+      | int k =>
+        simp only [hnd, Bool.or_eq_true, beq_iff_eq] at h
+        rw [nodeVal_eq nodes env m hn ty (by rw [hnd']; rfl), hnd']
+        simp only [evalNode, get_single, if_pos rfl]
+        have hk : argVal nodes (evalUpTo nodes env m) (.int k) = k := rfl
+        rw [hk]
+        generalize cmp op (argVal nodes (evalUpTo nodes env m) a) (argVal nodes (evalUpTo nodes env m) b) = cb
+        cases cb
+        · left; simp
+        · simpa using h
     | _ => simp [hnd] at h
 
 theorem bool_argVal (nodes : Array CNode) (env : Env) (a : Arg) (h : isBoolArg nodes a = true) :
